@@ -11,7 +11,7 @@ RULE = ('Poisson stream: h = k/4 (k in 1..40), p = k/4 (1..200), K = k/4 (1..400
         'pairs (r possibly negative); exact-tie stream (lambda = 1, K chosen so that c(1) = c(2) exactly in binary64); malformed '
         'stream (non-positive costs, negative mean / lead time, Q <= 0, non-integer r or Q, zero lead-time demand). '
         'Normal stream: h, p, K floats, mean 50..2000, cv 0.05..0.4, lead time in {1/12, 1/4, 1/2, 1, 2}: r_q_cost at random (r,Q), '
-        'r_q_optimal_r_for_q, the four approximations. non-trivial (Poisson) = the returned window was extended at least once to '
+        'r_q_optimal_r_for_q, the four approximations (8% of the cases with p << h and large K, where the EIL equations have no solution). non-trivial (Poisson) = the returned window was extended at least once to '
         'each side of S; distinct = distinct parameter tuples.')
 
 BIG = Fraction(10) ** 30
@@ -207,7 +207,7 @@ def explore_poisson(chk, n, ntie, do_model=True):
         pairs = [(r, Q)] + [(S + rng.randint(-Q - 5, 3), rng.randint(1, Q + 6)) for _ in range(3)]
         vals = [check_cost_call(chk, c, rr, qq, og) for rr, qq in pairs]
         # hypotheses of C14_poisson_g_unimodal on the implementation's g and cdf
-        ylo = min(r, S - Qmax) - 4; yhi = max(r + Q, S + Qmax) + 4
+        ylo = min(r, S) - Q - 8; yhi = max(r + Q, S) + Q + 8
         ylo = min(ylo, min(rr for rr, _ in pairs) - 1); yhi = max(yhi, max(rr + qq for rr, qq in pairs) + 1)
         try:
             gt, cdf = impl_tables(c, ylo, yhi)
@@ -298,6 +298,26 @@ def explore_malformed(chk, n):
             exprs.append('tag3 (r_q_poisson_exact (fun _ => 1) (fun _ => 1) %s %s %s %s %s 5%%nat)' % (cq(c['h']), cq(c['p']), cq(c['K']), cq(c['lam']), cq(c['L'])))
             expect.append((case, got2))
         chk.case(case, False)
+    # r_q_cost guards (incl. the ValueError raised by the integrand when mu or sigma is zero)
+    for i in range(max(6, n // 3)):
+        c = dict(good); which = rng.choice(['h', 'p', 'K', 'lam', 'sd', 'L', 'lam0', 'sd0', 'L0', 'Q0', 'Qneg', 'none'])
+        r, Q = 2.5, 4.0
+        if which in ('h', 'p', 'K'): c[which] = rng.choice([0.0, -1.0])
+        elif which in ('lam', 'sd', 'L'): c[which] = -1.0
+        elif which in ('lam0', 'sd0', 'L0'): c[which[:-1]] = 0.0
+        elif which == 'Q0': Q = 0.0
+        elif which == 'Qneg': Q = -2.0
+        chk.count('malformed_r_q_cost=%s' % which)
+        case = dict(kind='malformed_r_q_cost', which=which, r=r, Q=Q, **c)
+        try:
+            v = rq.r_q_cost(r, Q, c['h'], c['p'], c['K'], c['lam'], c['sd'], c['L']); got = ('ok', float(v))
+        except Exception as e:
+            got = ('err', exc_kind(e))
+        if (which == 'none') != (got[0] == 'ok') or (got[0] == 'err' and got[1] != 'ValueError'):
+            chk.fail('r_q_cost|malformed-%s' % which, 'expected %s, got %r' % ('a value' if which == 'none' else 'ValueError', got), case)
+        exprs.append('obs1 (r_q_cost 1 %s %s %s %s %s %s %s)' % tuple(cq(x) for x in (Q, c['h'], c['p'], c['K'], c['lam'], c['sd'], c['L'])))
+        expect.append((case, got))
+        chk.case(case, False)
     out = coq_eval('c14m', 'Alg.RQ', DEFS, exprs)
     for (case, got), (t, _) in zip(expect, out):
         chk.traces += 1
@@ -309,6 +329,8 @@ def explore_malformed(chk, n):
 # normal stream (oracle only; quad / ppf / loss functions are inputs of the model)
 def gen_normal(rng):
     h = round(rng.uniform(0.05, 5), 3); p = round(h * rng.uniform(2, 60), 3); K = round(rng.uniform(1, 200), 2)
+    if rng.random() < 0.08:      # EIL equations have no solution when Q h / (p lambda) >= 1: cheap stockouts, expensive orders
+        p = round(h * rng.uniform(0.02, 0.3), 4); K = round(rng.uniform(200, 5000), 2)
     lam = rng.randint(50, 2000); sd = round(lam * rng.uniform(0.05, 0.4), 2); L = rng.choice([1 / 12, 0.25, 0.5, 1, 2])
     return dict(kind='normal', h=h, p=p, K=K, lam=lam, sd=sd, L=L)
 
@@ -468,6 +490,13 @@ def replay(chk, rp):
             else: check_cost_call(chk, c, res[1], res[2], og)
     elif kind == 'normal':
         oracle_normal(chk, c)
+    elif kind == 'malformed_r_q_cost':
+        from stockpyl import rq
+        try: got = ('ok', rq.r_q_cost(c['r'], c['Q'], c['h'], c['p'], c['K'], c['lam'], c['sd'], c['L']))
+        except Exception as e: got = ('err', exc_kind(e))
+        print('implementation:', got)
+        if (c['which'] == 'none') != (got[0] == 'ok') or (got[0] == 'err' and got[1] != 'ValueError'):
+            chk.fail('r_q_cost|malformed-%s' % c['which'], repr(got), c)
     elif kind == 'malformed':
         from stockpyl import rq
         try: got = ('ok', rq.r_q_cost_poisson(c['r'], c['Q'], c['h'], c['p'], c['K'], c['lam'], c['L']))
